@@ -555,6 +555,8 @@ pub fn e3_dynspace(ctx: &Ctx, name: &str, st: &mut Local, f: Sink) {
         vec![Tok::Lit(b'a'), Tok::Lit(b'b'), Tok::Lit(b'a')],
         vec![Tok::Lit(b'a'), r(3, 1), Tok::Lit(b'b'), r(4, 2)],
         vec![Tok::Lit(b'a'), Tok::Lit(b'b'), Tok::Lit(b'c'), r(3, 3), r(258, 1), Tok::Lit(0xff)],
+        // length 258 in both codings (symbol 284 + 31 and symbol 285) inside one dynamic block
+        vec![Tok::Lit(b'a'), Tok::Ref { len: 258, dist: 1, irr: true }, Tok::Lit(b'b'), r(258, 2), Tok::Ref { len: 258, dist: 2, irr: true }, r(258, 2)],
         // two distance symbols in use, both >= 1 (the distance lengths start with a zero)
         vec![Tok::Lit(b'a'), Tok::Lit(b'b'), Tok::Lit(b'c'), Tok::Lit(b'd'), r(4, 2), r(5, 4), r(3, 2)],
         // exactly one distance symbol in use (symbols 1, 2, 3 and 0)
@@ -845,7 +847,7 @@ pub fn e3_dynspace(ctx: &Ctx, name: &str, st: &mut Local, f: Sink) {
         }
     }
     let e = st.eng(name);
-    e.bound = "11 token lists x {zero run crossing the HLIT/HDIST boundary; header starting with repeat-previous (code 16); incomplete distance codes (single code of length 1, none); last run overshooting HLIT+HDIST (malformed); coarse run-length policies (no runs, no zero runs, no repeat runs); HLIT,HDIST 5-value menus x HCLEN min..19; all complete length vectors over the used lit/len symbols, over 2-4 distance symbols, over the used code-length symbols; default RLE with every single and every pair of alternative run choices}".into();
+    e.bound = "12 token lists x {zero run crossing the HLIT/HDIST boundary; header starting with repeat-previous (code 16); incomplete distance codes (single code of length 1, none); last run overshooting HLIT+HDIST (malformed); coarse run-length policies (no runs, no zero runs, no repeat runs); HLIT,HDIST 5-value menus x HCLEN min..19; all complete length vectors over the used lit/len symbols, over 2-4 distance symbols, over the used code-length symbols; default RLE with every single and every pair of alternative run choices}".into();
     e.exhaustive = true;
 }
 
